@@ -725,8 +725,8 @@ def _monitor(cfg, prop, model, F, res, max_days):
                     F.add("C06.dry_yield", "DryYield == biomass/100 * HIadj",
                           "%s: DryYield=%.10f vs %.10f" % (dstr, cg[CG["DryYield"]], dy),
                           cg[CG["DryYield"]] - dy, dstr)
-                fy = float(cg[CG["DryYield"]]) / (float(crop.YldWC) / 100)
-                if float(cg[CG["FreshYield"]]) != fy:
+                fy = float(cg[CG["DryYield"]]) / (float(crop.YldWC) / 100) if float(crop.YldWC) != 0 else float("nan")   # YldWC = 0: known catalogue defect (C16)
+                if float(crop.YldWC) != 0 and float(cg[CG["FreshYield"]]) != fy:
                     F.add("C06.fresh_yield", "FreshYield == DryYield / (YldWC/100)",
                           "%s: FreshYield=%.10f vs %.10f" % (dstr, cg[CG["FreshYield"]], fy),
                           cg[CG["FreshYield"]] - fy, dstr)
@@ -773,7 +773,8 @@ def _monitor(cfg, prop, model, F, res, max_days):
             day = cga[h]
             for col, nm in (("Dry yield (tonne/ha)", "DryYield"), ("Fresh yield (tonne/ha)", "FreshYield"),
                             ("Yield potential (tonne/ha)", "YieldPot")):
-                if float(row[col]) != float(day[CG[nm]]):
+                a_, b_ = float(row[col]), float(day[CG[nm]])
+                if a_ != b_ and not (a_ != a_ and b_ != b_):      # nan repeats nan (non-finite values are the business of C05/C16, not of this clause)
                     F.add("C06.summary_repeats_harvest_day." + nm, "summary row repeats the harvest-day value",
                           "season %d step %d: summary %s=%.10f daily %.10f" % (k, h, nm, row[col], day[CG[nm]]),
                           float(row[col]) - float(day[CG[nm]]))
